@@ -26,18 +26,18 @@ for pid in allids:
         "technique": p.get("technique", "Lean 4 proof on an executable model + differential correspondence with the Go code"),
     })
 kinds = {
-    "nodediff": "differential step validation of one real node (all handlers, role transitions, crash-point restarts) against the Lean model Raft.Node.step, with property monitors on the real execution",
+    "nodediff": "differential step validation of one real node (all handlers, role transitions, crash-point restarts; the public Config editing helpers) against the Lean model Raft.Node.step / Raft.Config.applyEdit, with property monitors on the real execution",
     "clustersim": "several real nodes scheduled by the harness (message delivery, loss, duplication, crashes); every node step validated against the model, global predicates evaluated on the real states",
     "codecdiff": "differential encode/decode of every wire/disk format against the Lean codec model",
     "logdiff": "differential operation programs + crash images on the real segmented log against the Lean SegLog/SegDisk model",
     "repldiff": "differential step validation of replication.go's step functions (writeAppendEntriesReq, onAppendEntriesResp, sendInstallSnapReq, onLeaderUpdate) on a real replication object over an in-memory connection against the Lean model Raft.Repl, with request-content monitors",
     "probelive": "the REAL control flow of replication.replicate() in its own goroutines over a scripted in-memory connection against a real follower node: probe loop, install fall-back and the pipelining phase (writer, reader, drains, every exit; episodes in child processes, race-detector variant); the probe phase is compared exchange by exchange with the Lean model Raft.Repl.probe/replicate, the pipeline is judged by monitors; bounded runs with watchdogs",
-    "astfacts": "TRANSLATOR of the regenerated tier: go/ast -> Lean definitions (channel skeletons of goroutines as control-flow graphs, channel census, safeTimer receive sites, timing expressions) written into lean/RaftGen/Gen on every run; the theorems of lean/RaftGen/Props are re-checked against them",
+    "astfacts": "TRANSLATOR of the regenerated tier: go/ast -> Lean definitions (channel skeletons of goroutines as control-flow graphs, channel census, safeTimer receive sites, timing expressions, persist/request order of candidate.startElection) written into lean/RaftGen/Gen on every run; the theorems of lean/RaftGen/Props are re-checked against them",
     "livestress": "search aid after a regenerated theorem broke: replays the schedule / timing on the real code (leader.notifyFlr against receiving goroutines, replication.runLoop against an unreachable peer, replication.deadlineSize); never decides a property on the unchanged tree",
     "scenario": "directed histories on the real code that proof attempts or misses produced (F19: delayed compaction under a live log view; pairing: a connection on which an RPC was given up is never used again); regression guards",
     "conndiff": "differential identity-handshake / lock scenarios over net.Pipe against the Lean connection automaton",
 }
-for n, ps in {"astfacts": ["C15", "C17"], "livestress": ["C15", "C17"]}.items():
+for n, ps in {"astfacts": ["C05", "C15", "C17"], "livestress": ["C15", "C17"]}.items():
     engines.setdefault(n, set()).update(ps)
 for pid, p in props.items():
     for sc in p.get("scenarios", []):
@@ -50,7 +50,7 @@ m = {
     "checks": checks,
     "not_applicable": [{"property_id": pid, "reason": props.get(pid, {}).get("na_reason", "check under construction in this round: model slice and theorems not yet registered (see DESIGN.md section 7)")}
                        for pid in allids if pid not in props or props[pid].get("disabled")],
-    "notes": "All checks: Lean theorems audited per run (`#print axioms`), engines rebuilt from /repo's working tree with -tags verif; for C15 and C17 part of the model (lean/RaftGen/Gen) is regenerated from the Go source on every run by go/astfacts and the theorems about it re-checked. Known findings: KNOWN_FINDINGS.json (F1-F21, all repaired by fix: commits). See DESIGN.md section 7.",
+    "notes": "All checks: Lean theorems audited per run (`#print axioms`), engines rebuilt from /repo's working tree with -tags verif; for C05, C15 and C17 part of the model (lean/RaftGen/Gen) is regenerated from the Go source on every run by go/astfacts and the theorems about it re-checked. Known findings: KNOWN_FINDINGS.json (F1-F21, all repaired by fix: commits). See DESIGN.md section 7.",
 }
 json.dump(m, open(os.path.join(ROOT, "MANIFEST.json"), "w"), indent=1)
 print("checks:", [c["property_id"] for c in checks])
